@@ -316,6 +316,7 @@ pub fn run(rep: &mut Rep) {
     let nmsg = if thorough { 40 } else { 4 };
     let cases = c01::gen_cases(&mut rng, nmsg * 3);
     let mut done = 0;
+    let mut accepted: Vec<(Vec<u8>, Vec<u8>)> = vec![];
     for (k, case) in cases.iter().enumerate() {
         if done >= nmsg {
             break;
@@ -346,11 +347,64 @@ pub fn run(rep: &mut Rep) {
         let all_bits = thorough || done == 0;
         mutate_message(rep, &mut c, &msg, &case.signal, &root, &mut rng, &case.label, all_bits);
         mutate_tree(rep, &mut c, &msg, &case.signal, case.index, &mut rng, &case.label);
+        accepted.push((msg.clone(), case.signal.clone()));
+        // a second message of the same member (same tree state) for the splice leg
+        {
+            let sig2 = rand_bytes(&mut rng, 9);
+            let id2 = if case.limit > 1 { (case.id + 1) % case.limit } else { case.id };
+            let req2 = enc_prove_request(&case.secret, case.index as u64, &Fr::from(case.limit), &Fr::from(id2), &case.ext, &sig2);
+            let mut msg2 = vec![];
+            if let Ok(Ok(())) = catch(|| c.rln.generate_rln_proof(Cursor::new(req2), &mut msg2).map_err(|e| e.to_string())) {
+                accepted.push((msg2, sig2));
+            }
+        }
         if done == 0 {
             rep.sample(json!({"case": case.label, "message_hex": hex_short(&msg), "signal": hex_short(&case.signal), "mutations_applied": "fields, signal, declared length, proof bits, tree, root sets"}));
         }
         done += 1;
         let _ = k;
+    }
+    // cross-message splices: proof of one accepted message with the values (or single fields) of another accepted
+    // message of the same member -- every part is individually well formed
+    if accepted.len() >= 2 {
+        let pairs = accepted.len().min(if thorough { 12 } else { 3 });
+        for i in 0..pairs {
+            let (m1, s1) = accepted[i].clone();
+            let (m2, s2) = accepted[(i + 1) % accepted.len()].clone();
+            if m1[128..] == m2[128..] {
+                continue;
+            }
+            let roots: Vec<u8> = [m1[128..160].to_vec(), m2[128..160].to_vec()].concat();
+            let mut splices: Vec<(String, Vec<u8>, Vec<u8>)> = vec![];
+            let mut sp = m1[..128].to_vec();
+            sp.extend_from_slice(&m2[128..]);
+            splices.push(("proof1+values2|signal2".into(), sp.clone(), s2.clone()));
+            splices.push(("proof1+values2|signal1".into(), sp, s1.clone()));
+            for f in 0..5usize {
+                if m1[128 + 32 * f..160 + 32 * f] == m2[128 + 32 * f..160 + 32 * f] {
+                    continue;
+                }
+                let mut sp = m1.clone();
+                sp[128 + 32 * f..160 + 32 * f].copy_from_slice(&m2[128 + 32 * f..160 + 32 * f]);
+                splices.push((format!("{}-from-other-message", FIELDS[f]), sp, s1.clone()));
+            }
+            splices.push(("message1|signal2".into(), m1.clone(), s2.clone()));
+            for (l, m, sgn) in splices {
+                let req = enc_verify_request(&m, &sgn);
+                for (which, v) in [("verify_rln_proof", v_rln(&c, &req)), ("verify_with_roots", v_roots(&c, &req, &roots)), ("verify", v_raw(&c, &m))] {
+                    // `verify` does not look at the signal: the pure signal swap is not a tampering for it
+                    if which == "verify" && l == "message1|signal2" {
+                        continue;
+                    }
+                    rep.ev();
+                    note_panic(rep, &v);
+                    if v == V::True {
+                        rep.violation(format!("{which}:accepts-cross-message-splice"), json!({"splice": l, "message": hex(&m)}));
+                    }
+                }
+                rep.stratum(format!("splice|{}", l));
+            }
+        }
     }
     rep.note("messages_mutated", json!(done));
     // empty root set is the documented skip: accepted
